@@ -1,5 +1,6 @@
 import BreezyVerif.Model.C19
 import BreezyVerif.Lemmas.C19
+import BreezyVerif.Lemmas.C19Place
 /-!
 C19 — theorems.  All statements are over arbitrary region lists, arbitrary
 lines (byte strings, any length, with or without trailing newline, including
@@ -52,6 +53,54 @@ theorem render_conflict_iff (o : Opts) (base this other : List Line) (regions : 
   | ok l =>
     simp only [hs, Except.ok.injEq, Prod.mk.injEq] at hr
     rw [← hr.2]; simp
+
+/-- **The title of the property.**  If no input line is itself the line `<<<<<<< TREE` (+ newline),
+then a text conflict is recorded exactly when that marker line is written to the file — and with it
+the `=======` and `>>>>>>> MERGE-SOURCE` lines.  (Without the hypothesis only "recorded ⇒ written"
+holds: a user line that looks like the marker is copied verbatim and records nothing.) -/
+theorem markers_written_iff (o : Opts) (base this other : List Line) (regions : List Region)
+    (h : FromInputs o.showBase base this other regions) (ls : List Line) (flag : Bool)
+    (hr : textMerge o base this other regions = .ok (ls, flag))
+    (hu : ∀ l ∈ base ++ other ++ this, l ≠ withName lt7 nameA ++ newlineOf this) :
+    (flag = true ↔ (withName lt7 nameA ++ newlineOf this) ∈ ls) ∧
+    (flag = true → (eq7 ++ newlineOf this) ∈ ls ∧ (withName gt7 nameB ++ newlineOf this) ∈ ls) := by
+  have hopt : (o.showBase && o.reprocess) = false := by
+    cases hb : (o.showBase && o.reprocess) with
+    | false => rfl
+    | true => simp [textMerge, hb] at hr
+  rw [text_merge_spec o base this other regions h hopt] at hr
+  cases hs : renderSpec o this regions with
+  | error e => simp [hs] at hr
+  | ok l =>
+    simp only [hs, Except.ok.injEq, Prod.mk.injEq] at hr
+    obtain ⟨rfl, rfl⟩ := hr
+    unfold renderSpec at hs
+    refine ⟨⟨?_, ?_⟩, ?_⟩
+    · intro hf
+      simp only [List.any_eq_true] at hf
+      obtain ⟨r, hr1, hr2⟩ := hf
+      exact mem_of_mergeLines_conflict _ _ _ regions l hs r hr1 hr2
+    · intro hm
+      cases hf : regions.any Region.isConflict with
+      | true => rfl
+      | false =>
+        exfalso
+        have hc : ∀ r ∈ regions, r.isConflict = false := by
+          intro r hr; simp only [List.any_eq_false] at hf; simpa using hf r hr
+        rw [mergeLines_clean _ _ _ regions hc] at hs
+        simp only [Except.ok.injEq] at hs
+        subst hs
+        simp only [List.mem_flatMap] at hm
+        obtain ⟨r, hr1, hr2⟩ := hm
+        have : r.chosen = r.emitted o.showBase := by
+          have := hc r hr1
+          cases r <;> simp_all [Region.chosen, Region.emitted, Region.isConflict]
+        rw [this] at hr2
+        exact hu _ (h r hr1 _ hr2) rfl
+    · intro hf
+      simp only [List.any_eq_true] at hf
+      obtain ⟨r, hr1, hr2⟩ := hf
+      exact mem_markers_of_conflict _ _ _ regions l hs r hr1 hr2
 
 /-- a conflict region always sets the flag — no hypothesis at all -/
 theorem flag_of_conflict (o : Opts) (base this other : List Line) (regions : List Region)
@@ -202,6 +251,182 @@ theorem resolve_contents_take_this (b t x : Bytes) :
     (Outcome.contentsConflict b t x).slot.map (resolveContents .this) =
       some ⟨some t, none, none, none, none, .item⟩ := rfl
 
+
+/-! ### placement: the final path, the helper names and path-keyed resolution
+
+All statements are over arbitrary locations (any directory identities, any
+names — including names that themselves end in `.THIS` etc.) of the file in
+BASE, THIS and OTHER. -/
+
+/-- only OTHER renamed / moved the file: it ends at OTHER's location, no path conflict -/
+theorem merge_loc_other_moved (b o : Loc) : mergeLoc (some b) b o = ⟨o, false⟩ := by
+  obtain ⟨bp, bn⟩ := b; obtain ⟨op, on⟩ := o
+  by_cases h1 : bn = on <;> by_cases h2 : bp = op <;>
+    simp [mergeLoc, C18.threeWay, pickWinner, h1, h2, eq_comm]
+
+/-- only THIS renamed / moved the file: it stays at THIS's location, no path conflict -/
+theorem merge_loc_this_moved (b t : Loc) : mergeLoc (some b) t b = ⟨t, false⟩ := by
+  simp [mergeLoc, C18.threeWay, pickWinner]
+
+/-- both sides moved it to the same place (or both added it there) -/
+theorem merge_loc_same_move (b : Option Loc) (t : Loc) : mergeLoc b t t = ⟨t, false⟩ := by
+  cases b with
+  | none => simp [mergeLoc, C18.threeWay, pickWinner]
+  | some b =>
+    obtain ⟨bp, bn⟩ := b; obtain ⟨tp, tn⟩ := t
+    by_cases h1 : bn = tn <;> by_cases h2 : bp = tp <;>
+      simp [mergeLoc, C18.threeWay, pickWinner, h1, h2]
+
+/-- name and directory are merged independently; each comes from THIS or OTHER, and a path conflict is
+reported exactly when one of the two attributes was changed differently by both sides -/
+theorem merge_loc_components (b t o : Loc) :
+    ((mergeLoc (some b) t o).final.name = t.name ∨ (mergeLoc (some b) t o).final.name = o.name) ∧
+    ((mergeLoc (some b) t o).final.parent = t.parent ∨ (mergeLoc (some b) t o).final.parent = o.parent) ∧
+    ((mergeLoc (some b) t o).pathConflict = true ↔
+      (b.name ≠ o.name ∧ t.name ≠ b.name ∧ t.name ≠ o.name) ∨
+      (b.parent ≠ o.parent ∧ t.parent ≠ b.parent ∧ t.parent ≠ o.parent)) := by
+  obtain ⟨bp, bn⟩ := b; obtain ⟨tp, tn⟩ := t; obtain ⟨op, on⟩ := o
+  by_cases h1 : bn = on <;> by_cases h2 : bp = op <;> by_cases h3 : tn = bn <;> by_cases h4 : tp = bp <;>
+    by_cases h5 : tn = on <;> by_cases h6 : tp = op <;>
+    simp_all [mergeLoc, C18.threeWay, pickWinner]
+
+/-- a file added by both sides (not in BASE): it ends at OTHER's location, and a path conflict is
+reported exactly when the two sides put it under different names or into different directories -/
+theorem merge_loc_added (t o : Loc) :
+    (mergeLoc none t o).final = o ∧ ((mergeLoc none t o).pathConflict = true ↔ t ≠ o) := by
+  obtain ⟨tp, tn⟩ := t; obtain ⟨op, on⟩ := o
+  by_cases h5 : tn = on <;> by_cases h6 : tp = op <;>
+    simp_all [mergeLoc, C18.threeWay, pickWinner]
+
+/-- helper files of an entry that may be absent from BASE hold exactly the texts (`[]` for an absent BASE) -/
+theorem helpers_exact_opt (o : Opts) (base : Option (List Line)) (this other : List Line) (regions : List Region)
+    (c b t x : Bytes) (h : mergeFileOpt o base this other regions = .textConflict c b t x) :
+    b = joinLines (baseLinesOf base) ∧ t = joinLines this ∧ x = joinLines other := by
+  unfold mergeFileOpt at h
+  repeat' split at h
+  all_goals (cases h <;> exact ⟨rfl, rfl, rfl⟩)
+
+/-- **Where a text conflict goes.**  Whatever the three locations (or two, for a file added by both
+sides): the record carries the merged (final) path, the marker file is there, the helper files are
+`final.BASE` (iff the file is in BASE), `final.THIS`, `final.OTHER` in the same directory and hold
+exactly the three texts, the file id stays on the file, and the entry leaves no file under any other
+name. -/
+theorem entry_text_conflict_placed (o : Opts) (base : Option (Loc × List Line)) (tl ol : Loc)
+    (this other : List Line) (regions : List Region) (c b t x : Bytes)
+    (h : mergeFileOpt o (base.map (·.2)) this other regions = .textConflict c b t x) :
+    ∃ p, mergeEntry o base tl ol this other regions = some p ∧
+      p.record = some (.text, (mergeLoc (base.map (·.1)) tl ol).final) ∧
+      p.get (mergeLoc (base.map (·.1)) tl ol).final = some c ∧
+      p.get ((mergeLoc (base.map (·.1)) tl ol).final.suffixed sfxBase) = base.map (fun b => joinLines b.2) ∧
+      p.get ((mergeLoc (base.map (·.1)) tl ol).final.suffixed sfxThis) = some (joinLines this) ∧
+      p.get ((mergeLoc (base.map (·.1)) tl ol).final.suffixed sfxOther) = some (joinLines other) ∧
+      p.idAt = some (mergeLoc (base.map (·.1)) tl ol).final ∧
+      ∀ f ∈ p.files, f.1 = (mergeLoc (base.map (·.1)) tl ol).final ∨
+        f.1 = (mergeLoc (base.map (·.1)) tl ol).final.suffixed sfxBase ∨
+        f.1 = (mergeLoc (base.map (·.1)) tl ol).final.suffixed sfxThis ∨
+        f.1 = (mergeLoc (base.map (·.1)) tl ol).final.suffixed sfxOther := by
+  obtain ⟨hb, ht, hx⟩ := helpers_exact_opt o _ this other regions c b t x h
+  subst hb ht hx
+  have he : mergeEntry o base tl ol this other regions =
+      place (mergeLoc (base.map (·.1)) tl ol).final (mergeLoc (base.map (·.1)) tl ol).pathConflict base.isSome
+        (.textConflict c (joinLines (baseLinesOf (base.map (·.2)))) (joinLines this) (joinLines other)) := by
+    simp only [mergeEntry, h]
+  refine ⟨_, he, rfl, ?_, ?_, ?_, ?_, rfl, ?_⟩
+  · simp [Placed.get, lookupLoc]
+  · cases base <;> simp [Placed.get, lookupLoc, optFile, baseLinesOf]
+  · cases base <;> simp [Placed.get, lookupLoc, optFile]
+  · cases base <;> simp [Placed.get, lookupLoc, optFile]
+  · intro f hf
+    cases base <;> simp [optFile] at hf <;> rcases hf with rfl | rfl | rfl | rfl <;> simp
+
+/-- a clean merge leaves exactly one file, at the merged location -/
+theorem entry_clean_placed (o : Opts) (base : Option (Loc × List Line)) (tl ol : Loc) (this other : List Line)
+    (regions : List Region) (c : Bytes) (h : mergeFileOpt o (base.map (·.2)) this other regions = .clean c) :
+    mergeEntry o base tl ol this other regions =
+      some ⟨[((mergeLoc (base.map (·.1)) tl ol).final, c)], none, some (mergeLoc (base.map (·.1)) tl ol).final,
+            (mergeLoc (base.map (·.1)) tl ol).pathConflict⟩ := by
+  simp only [mergeEntry, h, place]
+
+/-- **End to end with paths.**  For every input that produces a text conflict and every way the
+file was renamed / moved on either side (or added by both): resolving the recorded conflict (by its
+recorded path) with take-this / take-other leaves exactly one file, at the merged location, holding
+exactly the THIS / OTHER text; all helper files and the record are gone. -/
+theorem entry_merge_then_resolve (o : Opts) (base : Option (Loc × List Line)) (tl ol : Loc)
+    (this other : List Line) (regions : List Region) (c b t x : Bytes)
+    (h : mergeFileOpt o (base.map (·.2)) this other regions = .textConflict c b t x) (w : Side) :
+    (mergeEntry o base tl ol this other regions).map (resolvePlaced w) =
+      some (.ok ⟨[((mergeLoc (base.map (·.1)) tl ol).final,
+                    match w with | .this => joinLines this | .other => joinLines other)],
+                 none, some (mergeLoc (base.map (·.1)) tl ol).final,
+                 (mergeLoc (base.map (·.1)) tl ol).pathConflict⟩) := by
+  obtain ⟨hb, ht, hx⟩ := helpers_exact_opt o _ this other regions c b t x h
+  subst hb ht hx
+  cases base with
+  | none =>
+    simp only [Option.map_none] at h
+    cases w <;>
+      simp [mergeEntry, h, place, resolvePlaced, Placed.view, Placed.get, Placed.idLoc, lookupLoc, resolveText,
+        Slot.helper, Placed.putSlot, optFile]
+  | some bb =>
+    simp only [Option.map_some] at h
+    cases w <;>
+      simp [mergeEntry, h, place, resolvePlaced, Placed.view, Placed.get, Placed.idLoc, lookupLoc, resolveText,
+        Slot.helper, Placed.putSlot, optFile]
+
+/-- the same for a both-sides contents conflict (binary file) -/
+theorem entry_contents_then_resolve (o : Opts) (base : Option (Loc × List Line)) (tl ol : Loc)
+    (this other : List Line) (regions : List Region) (b t x : Bytes)
+    (h : mergeFileOpt o (base.map (·.2)) this other regions = .contentsConflict b t x) (w : Side) :
+    (mergeEntry o base tl ol this other regions).map (resolvePlaced w) =
+      some (.ok ⟨[((mergeLoc (base.map (·.1)) tl ol).final, match w with | .this => t | .other => x)],
+                 none, some (mergeLoc (base.map (·.1)) tl ol).final, false⟩) := by
+  cases base with
+  | none =>
+    simp only [Option.map_none] at h
+    cases w <;>
+      simp [mergeEntry, h, place, resolvePlaced, Placed.view, Placed.get, Placed.idLoc, lookupLoc, resolveContents,
+        Placed.putSlot, optFile]
+  | some bb =>
+    simp only [Option.map_some] at h
+    cases w <;>
+      simp [mergeEntry, h, place, resolvePlaced, Placed.view, Placed.get, Placed.idLoc, lookupLoc, resolveContents,
+        Placed.putSlot, optFile]
+
+/-- for a file that is in BASE the entry-level content merge is `mergeFile`, so `merge_file_spec`,
+`text_merge_spec`, `markers_written_iff` … describe what `mergeEntry` places -/
+theorem entry_content_is_merge_file (o : Opts) (bl : Loc) (base this other : List Line) (regions : List Region) :
+    mergeFileOpt o ((some (bl, base)).map (·.2)) this other regions = mergeFile o base this other regions :=
+  mergeFileOpt_some o base this other regions
+
+/-- a file added by both sides with different texts is text-merged against an empty BASE; a recorded
+conflict then has no `.BASE` helper -/
+theorem entry_added_no_base_helper (o : Opts) (tl ol : Loc) (this other : List Line) (regions : List Region)
+    (p : Placed) (h : mergeEntry o none tl ol this other regions = some p) :
+    p.get ((mergeLoc none tl ol).final.suffixed sfxBase) = none := by
+  simp only [mergeEntry, Option.map_none, Option.isSome_none] at h
+  cases hm : mergeFileOpt o none this other regions with
+  | clean c => simp only [hm, place, Option.some.injEq] at h; subst h; simp [Placed.get, lookupLoc]
+  | textConflict c b t x => simp only [hm, place, Option.some.injEq] at h; subst h; simp [Placed.get, lookupLoc, optFile]
+  | contentsConflict b t x => simp only [hm, place, Option.some.injEq] at h; subst h; simp [Placed.get, lookupLoc, optFile]
+  | error e => simp [hm, place] at h
+
+/-- the seeded scenario, concretely: BASE `1/f`, THIS edits, OTHER edits and renames to `1/g` -/
+example :
+    (mergeEntry ⟨false, false⟩ (some (⟨1, [102]⟩, [[97, 10]])) ⟨1, [102]⟩ ⟨1, [103]⟩ [[98, 10]] [[99, 10]]
+        [.conflict none [[98, 10]] [[99, 10]]]).map (fun p => (p.record, p.files.map (·.1), resolvePlaced .this p)) =
+      some (some (.text, ⟨1, [103]⟩),
+            [⟨1, [103]⟩, ⟨1, [103, 46, 66, 65, 83, 69]⟩, ⟨1, [103, 46, 84, 72, 73, 83]⟩, ⟨1, [103, 46, 79, 84, 72, 69, 82]⟩],
+            .ok ⟨[(⟨1, [103]⟩, [98, 10])], none, some ⟨1, [103]⟩, false⟩) := by
+  decide
+
+/-- added by both sides under different names: path conflict, OTHER's name, helpers `.THIS` / `.OTHER` only -/
+example :
+    (mergeEntry ⟨false, false⟩ none ⟨1, [102]⟩ ⟨1, [103]⟩ [[98, 10]] [[99, 10]]
+        [.conflict none [[98, 10]] [[99, 10]]]).map (fun p => (p.record, p.files.map (·.1), p.pathConflict)) =
+      some (some (.text, ⟨1, [103]⟩),
+            [⟨1, [103]⟩, ⟨1, [103, 46, 84, 72, 73, 83]⟩, ⟨1, [103, 46, 79, 84, 72, 69, 82]⟩], true) := by
+  decide
+
 /-! non-vacuity of the hypotheses -/
 
 example : FromInputs true [[97, 10], [98, 10]] [[97, 10], [66, 10]] [[97, 10], [88]]
@@ -218,5 +443,55 @@ example : mergeFile ⟨true, false⟩ [[97, 10]] [[98, 10]] [[99, 10]] [.conflic
         [97, 10] [98, 10] [99, 10] := by
   decide
 example : (isBinary [[97, 10]] || isBinary [[99, 10]] || isBinary [[98, 10]]) = false := by decide
+
+/-- binary detection looks at whole lines until the 1024-byte window is full: a NUL in the line that
+overflows the window still counts, a NUL after it does not -/
+theorem binary_window (pre : List Line) (l : Line) (rest : List Line)
+    (hp : ∀ x ∈ pre, x.contains 0 = false) (hfit : (pre.map List.length).sum ≤ 1024)
+    (hover : (pre.map List.length).sum + l.length > 1024) :
+    isBinary (pre ++ l :: rest) = l.contains 0 := by
+  have key : ∀ (off : Nat) (pre : List Line), (∀ x ∈ pre, x.contains 0 = false) →
+      off + (pre.map List.length).sum ≤ 1024 → off + (pre.map List.length).sum + l.length > 1024 →
+      checkTextLines off (pre ++ l :: rest) = !l.contains 0 := by
+    intro off pre
+    induction pre generalizing off with
+    | nil =>
+      intro _ _ h2
+      simp only [List.nil_append, checkTextLines]
+      cases hl : l.contains 0 with
+      | true => simp
+      | false =>
+        simp only [List.map_nil, List.sum_nil, Nat.add_zero] at h2
+        simp [h2]
+    | cons x xs ih =>
+      intro h0 h1 h2
+      have hx := h0 x (by simp)
+      simp only [List.map_cons, List.sum_cons] at h1 h2
+      simp only [List.cons_append, checkTextLines, hx, Bool.false_eq_true, if_false]
+      have : ¬ (off + x.length > 1024) := by omega
+      simp only [this, if_false]
+      exact ih (off + x.length) (fun y hy => h0 y (by simp [hy])) (by omega) (by omega)
+  have := key 0 pre hp (by simpa using hfit) (by simpa using hover)
+  simp [isBinary, this]
+
+/-- non-vacuity of `binary_window`: a 1000-byte line, then a 30-byte line that overflows the window -/
+example : (∀ x ∈ [List.replicate 1000 (97 : UInt8)], x.contains 0 = false) ∧
+    ([List.replicate 1000 (97 : UInt8)].map List.length).sum ≤ 1024 ∧
+    ([List.replicate 1000 (97 : UInt8)].map List.length).sum + (List.replicate 30 (98 : UInt8)).length > 1024 := by
+  refine ⟨?_, ?_, ?_⟩
+  · intro x hx
+    rw [List.mem_singleton] at hx
+    subst hx
+    cases h : (List.replicate 1000 (97 : UInt8)).contains 0 with
+    | false => rfl
+    | true =>
+      rw [List.contains_iff_mem, List.mem_replicate] at h
+      exact absurd h.2 (by decide)
+  · simp only [List.map_cons, List.map_nil, List.length_replicate, List.sum_cons, List.sum_nil]; omega
+  · simp only [List.map_cons, List.map_nil, List.length_replicate, List.sum_cons, List.sum_nil]; omega
+/-- `markers_written_iff`: its hypothesis holds for ordinary texts and fails for a text that contains the marker line -/
+example : ∀ l ∈ [[97, 10]] ++ [[99, 10]] ++ [[98, 10]], l ≠ withName lt7 nameA ++ newlineOf [[98, 10]] := by decide
+example : ¬ ∀ l ∈ [[97, 10]] ++ [[99, 10]] ++ [withName lt7 nameA ++ [10]], l ≠ withName lt7 nameA ++ newlineOf [withName lt7 nameA ++ [10]] := by
+  decide
 
 end BreezyVerif.C19
